@@ -137,4 +137,28 @@ CLAIMED["C16"] = {
 HOOKS["source_commits"] = ["a33f737"]
 HOOKS["guard"] = "cargo feature `verif_hooks` of crate moc-set (crates/set)"
 HOOKS["enable"] = "cargo build -p moc-set -p moc-cli --features moc-set/verif_hooks (done by ./check C16 into .cache/repo-target-hooks)"
+_ST_NOTE = TB + "; specification-level model: no theorem is about the Rust state machines themselves, the tie is the point-wise correspondence"
+CLAIMED["C08"] = {
+    "text": "Theorems fix the specification of the ST union (point set = union of the point sets, commutativity, neutral element, idempotence) and what the validity predicate validSTB "
+            "guarantees (non-empty canonical parts, elements ordered in time, hence disjoint time MOCs). The three real forms of the operator are compared with the specification at every "
+            "grid point (incl. shared boundaries) in both operand orders, every output is judged by validSTB, panics are answers. Partial: the 1 400-line state machine is not transliterated, "
+            "termination is observed. Two open findings (outputs with overlapping element time MOCs; panics on some valid inputs).",
+    "design_ref": "DESIGN.md §4 C08, §10", "note": _ST_NOTE,
+    "technique": "Lean 4 proof on the specification + point-wise correspondence (refinement to an abstract spec) + executable validity judge",
+}
+CLAIMED["C09"] = {
+    "text": "Theorems: the specification of ST construction (covered iff some observation covers it) is the union of the products, is independent of order and duplicates, and a proved "
+            "counterexample for the original make_consistent seed. Both streaming builders (all capacities) and the range-2D path are compared with the specification at every grid point. One "
+            "defect repaired (make_consistent assumed the first entry is the earliest); one open finding (the sweep-line builder panics on some observation lists).",
+    "design_ref": "DESIGN.md §4 C09, §10", "note": _ST_NOTE,
+    "technique": "Lean 4 proof on the specification + point-wise correspondence of the three construction paths",
+}
+CLAIMED["C10"] = {
+    "text": "Theorems: union / intersection / difference point-wise, product form of the intersection, time-fold and space-fold semantics (the code's range reading equals the instant reading "
+            "for valid operands), half-open lookup incl. the shared-boundary case, what validFlatB rejects. The Ranges2D algebra, both folds and both lookups of the real code are compared with "
+            "them on the grid. Two defects repaired (closed time range + unreachable!() in contains; inverted comparator in RangeMOC2::contains_val); one open finding (merge emits "
+            "zero-length / unfused time ranges).",
+    "design_ref": "DESIGN.md §4 C10, §10", "note": _ST_NOTE,
+    "technique": "Lean 4 proof on the specification + point-wise correspondence",
+}
 NOT_YET = {}
